@@ -12139,25 +12139,27 @@ func (p *parser) captureValueWithPossibleSideEffects(
 	}
 
 	// Referencing certain expressions more than once has no side effects, so we
-	// can just create them inline without capturing them in a temporary variable
+	// can just create them inline without capturing them in a temporary variable.
+	// The copies keep the location of the value itself, which is not always
+	// "loc" (e.g. "(2 && x)?.()" is a chain that starts at "2" with the value "x").
 	var valueFunc func() js_ast.Expr
 	switch e := value.Data.(type) {
 	case *js_ast.ENull:
-		valueFunc = func() js_ast.Expr { return js_ast.Expr{Loc: loc, Data: js_ast.ENullShared} }
+		valueFunc = func() js_ast.Expr { return js_ast.Expr{Loc: value.Loc, Data: js_ast.ENullShared} }
 	case *js_ast.EUndefined:
-		valueFunc = func() js_ast.Expr { return js_ast.Expr{Loc: loc, Data: js_ast.EUndefinedShared} }
+		valueFunc = func() js_ast.Expr { return js_ast.Expr{Loc: value.Loc, Data: js_ast.EUndefinedShared} }
 	case *js_ast.EThis:
-		valueFunc = func() js_ast.Expr { return js_ast.Expr{Loc: loc, Data: js_ast.EThisShared} }
+		valueFunc = func() js_ast.Expr { return js_ast.Expr{Loc: value.Loc, Data: js_ast.EThisShared} }
 	case *js_ast.EBoolean:
-		valueFunc = func() js_ast.Expr { return js_ast.Expr{Loc: loc, Data: &js_ast.EBoolean{Value: e.Value}} }
+		valueFunc = func() js_ast.Expr { return js_ast.Expr{Loc: value.Loc, Data: &js_ast.EBoolean{Value: e.Value}} }
 	case *js_ast.ENumber:
-		valueFunc = func() js_ast.Expr { return js_ast.Expr{Loc: loc, Data: &js_ast.ENumber{Value: e.Value}} }
+		valueFunc = func() js_ast.Expr { return js_ast.Expr{Loc: value.Loc, Data: &js_ast.ENumber{Value: e.Value}} }
 	case *js_ast.EBigInt:
-		valueFunc = func() js_ast.Expr { return js_ast.Expr{Loc: loc, Data: &js_ast.EBigInt{Value: e.Value}} }
+		valueFunc = func() js_ast.Expr { return js_ast.Expr{Loc: value.Loc, Data: &js_ast.EBigInt{Value: e.Value}} }
 	case *js_ast.EString:
-		valueFunc = func() js_ast.Expr { return js_ast.Expr{Loc: loc, Data: &js_ast.EString{Value: e.Value}} }
+		valueFunc = func() js_ast.Expr { return js_ast.Expr{Loc: value.Loc, Data: &js_ast.EString{Value: e.Value}} }
 	case *js_ast.EPrivateIdentifier:
-		valueFunc = func() js_ast.Expr { return js_ast.Expr{Loc: loc, Data: &js_ast.EPrivateIdentifier{Ref: e.Ref}} }
+		valueFunc = func() js_ast.Expr { return js_ast.Expr{Loc: value.Loc, Data: &js_ast.EPrivateIdentifier{Ref: e.Ref}} }
 	case *js_ast.EIdentifier:
 		if mode == valueDefinitelyNotMutated {
 			valueFunc = func() js_ast.Expr {
@@ -12167,7 +12169,7 @@ func (p *parser) captureValueWithPossibleSideEffects(
 				// incorrectly inline the initializer into the first reference, leaving
 				// the second reference without a definition.
 				p.recordUsage(e.Ref)
-				return js_ast.Expr{Loc: loc, Data: &js_ast.EIdentifier{Ref: e.Ref}}
+				return js_ast.Expr{Loc: value.Loc, Data: &js_ast.EIdentifier{Ref: e.Ref}}
 			}
 		}
 	}
